@@ -152,6 +152,7 @@ type vio struct{ sig, what string }
 
 type ackSnap struct {
 	label    string
+	rewriting string // label of a thread parked inside store.Write at that instant ("" = none)
 	bytes    string
 	live     []string // name/key acknowledged granted and not acknowledged released at that instant
 	released []string
@@ -357,6 +358,12 @@ func (w *world) enableSnapshots() {
 		w.mu.Lock()
 		defer w.mu.Unlock()
 		s := ackSnap{label: label, bytes: string(b)}
+		// another thread may be parked in the middle of the file rewrite at this instant
+		for _, n := range verifrt.Runnable() {
+			if at := verifrt.Where(n); strings.Contains(at, "store/store.go") {
+				s.rewriting = at
+			}
+		}
 		rel := map[string]bool{}
 		for _, c := range w.calls {
 			if c.Done && c.Ok && c.Kind == "unlock" {
@@ -678,6 +685,41 @@ func templates() []template {
 				},
 			}
 		}},
+		{name: "unlock||trylock;renew(old-key)", props: []string{"C05"}, bound: 2, prog: func(t *testing.T) conc.Program {
+			// a second client takes the lock as soon as the Unlock has freed it and then presents the OLD
+			// key to Renew: "a hold reported renewed is not already gone" - the capacity is provably the
+			// second client's at that instant, whether or not the Unlock call has returned yet
+			return conc.Program{
+				Setup: func() any {
+					w := newWorld(t, cfgFile(), "s1", "s2")
+					w.mustTry("s1", "x", nil, p32(5), "h")
+					return w
+				},
+				Threads: []conc.Thread{
+					{Name: "U", Run: func(c any) { c.(*world).unlock("U", "s1", "x", "h") }},
+					{Name: "B", Run: func(c any) {
+						w := c.(*world)
+						w.tryLock("B", "s2", "x", nil, nil, "b")
+						w.mu.Lock()
+						_, got := w.keys["b"]
+						w.mu.Unlock()
+						if got {
+							w.renew("B", "x", "h", 100)
+						}
+					}},
+				},
+				Finish: func(c any) conc.Outcome {
+					w := c.(*world)
+					return finish(w, func() {
+						for _, c := range w.calls {
+							if c.Kind == "renew" && c.Done && c.Ok {
+								w.v("conc:truth:renewed-after-handover", "Renew with the old key answered locked=true after another client had been granted the size-1 lock %q: the hold reported renewed was already gone", "x")
+							}
+						}
+					})
+				},
+			}
+		}},
 		{name: "destroy||trylock(same-session)", props: []string{"C06"}, bound: 2, prog: func(t *testing.T) conc.Program {
 			return conc.Program{
 				Setup: func() any {
@@ -831,6 +873,29 @@ func templates() []template {
 				Finish: func(c any) conc.Outcome {
 					w := c.(*world)
 					return finish(w, func() { crashMonitor(w, map[string]int{"x": 1}, true) })
+				},
+			}
+		}},
+		{name: "expiry||unlock (crash images)", props: []string{"C09"}, bound: 2, prog: func(t *testing.T) conc.Program {
+			// an Unlock racing the lease callback of the same hold: whichever answers, the file must not
+			// record the hold once the release is acknowledged
+			return conc.Program{
+				Setup: func() any {
+					w := newWorld(t, cfgFile(), "s1", "s2")
+					w.mustTry("s1", "x", nil, p32(5), "h")
+					w.mustTry("s2", "z", nil, nil, "h2")
+					w.calls = append(w.calls, &call{Thread: "setup", Kind: "trylock", Name: "x", Key: w.keys["h"], Ok: true, Done: true, Err: "-"},
+						&call{Thread: "setup", Kind: "trylock", Name: "z", Key: w.keys["h2"], Ok: true, Done: true, Err: "-"})
+					w.enableSnapshots()
+					return w
+				},
+				Threads: []conc.Thread{
+					{Name: "U", Run: func(c any) { c.(*world).unlock("U", "s1", "x", "h") }},
+				},
+				Ticks: []time.Duration{5 * time.Second},
+				Finish: func(c any) conc.Outcome {
+					w := c.(*world)
+					return finish(w, func() { crashMonitor(w, map[string]int{"x": 1, "z": 1}, true) })
 				},
 			}
 		}},
@@ -1111,7 +1176,7 @@ func crashMonitor(w *world, sizes map[string]int, expiryInPlay bool) {
 		}
 		seen[k] = true
 		where := "outside-rewrite"
-		if strings.Contains(s.label, "store/store.go") {
+		if strings.Contains(s.label, "store/store.go") || s.rewriting != "" {
 			where = "in-rewrite"
 		}
 		m, err := decodeImage(w, []byte(s.bytes))
